@@ -1037,6 +1037,21 @@ pub fn check_prepared(o: &mut Outcome, ps: &PreparedStatement, case: &PreparedCa
         ),
         Ok(Ok(Some(_))) => {}
     }
+    // every handle of the statement is the statement: a copy (what `execute_iter(prepared.clone(), ..)` or
+    // `batch.append_statement(prepared.clone())` work with) computes the same token with the same partitioner
+    let copy = ps.clone();
+    o.class("P:token-through-a-copy-of-the-handle");
+    if std::mem::discriminant(&copy.get_partitioner_name().clone()) != std::mem::discriminant(&ps.get_partitioner_name().clone()) {
+        o.violation("P:copy:partitioner-name", format!("a copy of the prepared statement uses partitioner {:?}, the statement itself {:?}", copy.get_partitioner_name(), ps.get_partitioner_name()), replay());
+    }
+    match fw::catch(|| copy.calculate_token(&values).map(|t| t.map(|t| t.value()))) {
+        Ok(Ok(Some(got))) if got == want => {}
+        other => o.violation(
+            "P:copy:calculate_token-vs-model",
+            format!("a copy of the prepared statement computes {other:?} for key markers {:?} (component lengths {lens:?}); the server computes {want}", case.key_markers),
+            replay(),
+        ),
+    }
     true
 }
 
